@@ -14,6 +14,8 @@ C16 line-protocol driver.
                                                                             → `ok i,j,…|rej|…` one answer per file
   argidx <b|d> <idx> <n>         `{args[idx]}` (b) / `{args.idx}` (d) inside a snippet imported with the
                                  n arguments a0 … a(n-1)                    → `val <hex>` | `kept` | `panic`
+  ws <text>                      `caddyhttp.WeakString(text).MarshalJSON()` through json.Marshal (the encoder of every
+                                 status code the adapter emits)                → `ok <hex>` | `err` (never, says the model)
   env <input> <table>            `replaceEnvVars` (the `{$NAME:default}` pass before lexing) under the environment
                                  <table> = `.` | name:value;…  (hex; the process environment is exactly that)
                                                                             → `ok <hex>` | `panic` | `fuel`
@@ -66,6 +68,7 @@ import CaddyModel.C16.ServerOpts
 import CaddyModel.C16.Addr
 import CaddyModel.C16.Normalize
 import CaddyModel.C16.MapSort
+import CaddyModel.C16.WeakString
 
 namespace CaddyModel.C16
 
@@ -374,6 +377,10 @@ def handle : List String → String
   | ["bind", sites] =>
     match parseBSites sites with
     | some ss => if ss.length ≤ 10 then "|".intercalate ((serversOf "8080" ss).map showBServer) else "bad-op"
+    | none => "bad-op"
+  | ["ws", t] =>
+    match hexField t with
+    | some b => "ok " ++ Hex.encode (weakMarshal b)
     | none => "bad-op"
   | ["env", inp, table] =>
     match hexField inp, parseEnvTable table with
